@@ -31,6 +31,12 @@
 //     the classifiers do not cover is a violation.  e2e_digest.txt (one line per case: status, loop
 //     steps, zero-wirelength flag, hash of every exposed and returned coordinate) lets two library
 //     builds be compared bit for bit.
+//     One generated case in three runs on an object with a PAST (family: state kept inside the Circuit between calls
+//     that a setter forgets to refresh, e.g. a memoised computeRows() not invalidated by setupRows): the child builds
+//     the object in a perturbed state, calls the cheap const observers, brings it to the case's public state through
+//     only the setters needed (common/past.hpp; half of these circuits have the rows setupRows produces, so that
+//     setupRows is the restoring setter) and then makes the measured call.  The statement quantifies over circuits,
+//     not over how the object got there: the oracle below is unchanged.  The recipe is part of the failure input.
 //     * at every UpperBound callback each movable cell's exposed centre x + placedWidth/2 lies in
 //       the rows' bounding box enlarged by 1/2 (the exposed x is round(ub - w/2), so the exposed
 //       centre differs from the float centre by at most 1/2: one rounding, derived not tuned);
@@ -79,6 +85,7 @@
 
 #include "common/circuit.hpp"
 #include "common/harness.hpp"
+#include "common/past.hpp"
 #include "place_global/density_grid.hpp"
 #include "place_global/place_global.hpp"  // defines COLOQUINTE_VERIF_HAS_H5 when hook H5 is in the tree
 
@@ -519,6 +526,10 @@ struct Case {
   int nZeroArea = 0;
   int redrawn = 0;
   int netKind = 0;
+  // object with a past (common/past.hpp): the recipe the forked child executes before the measured call ("" = fresh object)
+  std::string past;
+  vc::Past pastRecipe;
+  bool setupRowsShaped = false;
 };
 
 static double uni(vh::Rng &g, double lo, double hi) { return lo + (hi - lo) * (g.range(0, 1 << 20) / (double)(1 << 20)); }
@@ -828,6 +839,14 @@ static Case genCase(uint64_t seed, long long k, bool bigger) {
     try { cs.params.check(); break; } catch (const std::exception &) { cs.redrawn++; }
   }
   cs.desc = pd;
+  // one case in three: an object with a past.  Drawn from a stream of its own: the circuits / parameters of the other
+  // cases are what they were.
+  if (k % 3 == 1) {
+    vh::Rng gp = vh::Rng::forCase(seed, 7000000 + k);
+    if (gp.chance(1, 2)) cs.setupRowsShaped = vc::setupShapedRows(gp, *cs.circ);  // still in the domain: the rows only get wider
+    cs.pastRecipe = vc::genPast(gp, *cs.circ);
+    cs.past = cs.pastRecipe.text();
+  }
   return cs;
 }
 
@@ -873,6 +892,12 @@ static void runPlacement(Case &cs, std::ostream &os) {
   if (logFd >= 0) dup2(logFd, 1);
   uint64_t digest = 1469598103934665603ull;  // of everything exposed (to compare two library builds)
   auto mix = [&](long long v) { for (int b = 0; b < 8; ++b) { digest ^= (unsigned char)(v >> (8 * b)); digest *= 1099511628211ull; } };
+  if (!cs.past.empty()) {
+    std::string err;
+    Circuit lived = vc::livePast(cs.past, *cs.circ, &err);
+    if (err.empty()) *cs.circ = lived;  // the copy carries whatever the object remembers
+    else os << "P " << err << "\n";
+  }
   Circuit &c = *cs.circ;
   const int n = c.nbCells();
   Rectangle box = c.computePlacementArea();  // bounding box of the rows (independent recomputation below)
@@ -1261,7 +1286,7 @@ static void oracleCase(vh::Out &out, uint64_t seed, long long k, bool bigger, co
     id = "c" + std::to_string(k);
     out.count("e2e_corpus");
   }
-  std::string input = "params: " + cs.desc + "\n" + vc::circuitString(*cs.circ);
+  std::string input = "params: " + cs.desc + "\n" + vc::circuitString(*cs.circ) + cs.past;
   out.evaluations++;
   out.ops << "case " << id << "\n";
   out.impl << "case " << id << "\n";
@@ -1271,6 +1296,10 @@ static void oracleCase(vh::Out &out, uint64_t seed, long long k, bool bigger, co
   std::string st = vh::isolated([&](std::ostream &os) { runPlacement(cs, os); }, res, 300, &diag);
   const auto &gp = cs.params.global;
   out.count("e2e_cases");
+  if (!cs.past.empty()) {
+    vc::countPast(out, "e2e_", cs.pastRecipe);
+    if (cs.setupRowsShaped) out.count("e2e_past_rows_as_setupRows_produces");
+  }
   out.count("e2e_effort_" + std::to_string(cs.effort));
   out.count(std::string("e2e_net_") + (gp.continuousModel.netModel == NetModelOption::Star ? "star" : "b2b"));
   out.count("e2e_cost_" + toString(gp.roughLegalization.costModel));
@@ -1355,6 +1384,10 @@ static void oracleCase(vh::Out &out, uint64_t seed, long long k, bool bigger, co
       out.dist["e2e_max_loop_steps"] = std::max(out.dist["e2e_max_loop_steps"], nSteps);
       if (xUB >= 0) out.count("e2e_raised");
       if (digestOut) *digestOut << id << " " << (xUB >= 0 ? "raised" : "ok") << " " << nSteps << " " << zero << " " << dg << "\n";
+    } else if (ln.rfind("P ", 0) == 0) {
+      // harness self-check, expected 0: the object with a past did not reach the case's public state (the case then ran on a fresh object)
+      out.count("e2e_past_restore_mismatch");
+      out.notes.push_back(id + ": " + ln.substr(2));
     } else if (ln.rfind("B ", 0) == 0) {
       out.ops << "blend " << dyadic((float)gp.exportBlending) << " " << ln.substr(2) << "\n";
       out.impl << "within\n";
@@ -1392,7 +1425,10 @@ int main(int argc, char **argv) {
              "penalty.updateFactor over (1,2) with step limits up to the default 400, stop tolerances down to 0, distance update factors "
              "over [0.8,1.2], numerical knobs in the C06 box; non-trivial = at least two UB callbacks and last LB != last UB for some "
              "movable cell; distinct by circuit+parameter text; measured: e2e_zero_wirelength, e2e_stopped_at_first_step, "
-             "e2e_ran_to_step_limit, e2e_penalty_would_overflow_at_step_limit, e2e_failures_*. "
+             "e2e_ran_to_step_limit, e2e_penalty_would_overflow_at_step_limit, e2e_failures_*; one generated case in three on an object with a "
+             "past (e2e_past_cases: built in a perturbed state, observers computeRows/computePlacementArea/hpwl/rowHeight/check called, "
+             "restored through only the needed setters — e2e_past_only_<class>, e2e_past_restored_by_<setter>, "
+             "e2e_past_restored_by_setupRows_alone —, same oracle). "
              "(c) per end-to-end case the control loop of GlobalPlacer::run against the Lean model GlobalLoop.run: callback order / outcome / "
              "iterations (loop_shape_cases), KF-C06-1 classifier verdicts (loop_drift_*), and with hook H5 the bit-for-bit replay of the "
              "logged floats (loop_replay_cases, loop_exit_*; loop_replay_unavailable_no_hook_H5 otherwise); rounding model vs FPU (rounding_*)";
